@@ -26,6 +26,23 @@ Theorem C11_endpoint_needs_its_permission :
 Proof. exact endpoint_needs_its_permission. Qed.
 Print Assumptions C11_endpoint_needs_its_permission.
 
+(** Cross-market targets: an item of market X is changed by a market endpoint only for a caller
+    who is the authority or holds the documented permission on market X itself, whatever market the
+    request names. *)
+Theorem C11_cross_market_items :
+  forall row, In row gen_endpoints ->
+  forall auth st req_market item_market caller,
+    item_changed (ep_name row) auth st req_market item_market caller = true ->
+    match documented_requirement (ep_name row) with
+    | RPerm p => caller = auth \/ In (item_market, caller, p) st
+    | RAuthority => caller = auth
+    | RRejectAll => False
+    | RDelegated _ => True
+    | RUnknown => False
+    end.
+Proof. exact cross_market_items. Qed.
+Print Assumptions C11_cross_market_items.
+
 (** The table computed from the Go source (endpoint -> guard -> Can* helper -> Permission_*
     constant, in source order) is the documented table; endpoint names are unique; HasPermission and
     storeHasPermission have the documented shape (authority short-circuit, then the store key of
